@@ -10,6 +10,7 @@ import (
 	"strconv"
 	"strings"
 
+	storetypes "cosmossdk.io/store/types"
 	sdknft "cosmossdk.io/x/nft"
 	sdk "github.com/cosmos/cosmos-sdk/types"
 	"github.com/cosmos/cosmos-sdk/types/query"
@@ -346,6 +347,12 @@ func (r *R) Gen(ctx sdk.Context, g *hx.Rng) string {
 		}
 		return "nft vjson data=" + hx16(d)
 	}
+	if len(classes) > 0 && g.Chance(1, 25) { // genesis round trip in the middle of a history (C12)
+		if g.Chance(1, 2) {
+			return "nft export"
+		}
+		return "nft reimport"
+	}
 	kind := g.Pick(3, 10, 7, 10, 5, 3, 4, 3)
 	if len(classes) == 0 && g.Chance(4, 5) {
 		kind = 0
@@ -562,8 +569,50 @@ func (r *R) malformed(ctx sdk.Context, g *hx.Rng, classes []classView, toks []to
 
 // ---------------------------------------------------------------- execution
 
+// genesisLine renders the real exported genesis in ITS OWN order (the order is compared).
+func (r *R) genesisLine(gs *nfttypes.GenesisState) string {
+	var cols []string
+	for _, c := range gs.Collections {
+		d := c.Denom
+		var ts []string
+		for _, t := range c.NFTs {
+			b := t
+			ts = append(ts, strings.Join([]string{b.Id, r.sym(b.Owner), hx16(b.Name), hx16(b.URI), hx16(b.UriHash), hx16(b.Data)}, ";"))
+		}
+		cols = append(cols, strings.Join([]string{d.Id, r.sym(d.Creator), b01(d.MintRestricted), b01(d.UpdateRestricted),
+			hx16(d.Name), hx16(d.Symbol), hx16(d.Schema), hx16(d.Description), hx16(d.Uri), hx16(d.UriHash), hx16(d.Data)}, ";")+"["+strings.Join(ts, "+")+"]")
+	}
+	return "cols=" + strings.Join(cols, ",")
+}
+
 func (r *R) Exec(ctx sdk.Context, line string) (sdk.Context, string) {
 	f := strings.Fields(line)
+	switch f[1] {
+	case "export": // the real ExportGenesis document and the real ValidateGenesis verdict
+		gs := r.env.NFT.ExportGenesis(ctx)
+		v := "ok"
+		if err := nfttypes.ValidateGenesis(*gs); err != nil {
+			v = "err"
+		}
+		return ctx, "ok validate=" + v + " " + r.genesisLine(gs)
+	case "reimport": // wipe the module store, then the real InitGenesis of the real export
+		gs := r.env.NFT.ExportGenesis(ctx)
+		class, _ := hx.Try(ctx, func(c sdk.Context) error {
+			st := c.KVStore(r.env.App.UnsafeFindStoreKey(nfttypes.StoreKey))
+			it := storetypes.KVStorePrefixIterator(st, nil)
+			var keys [][]byte
+			for ; it.Valid(); it.Next() {
+				keys = append(keys, append([]byte{}, it.Key()...))
+			}
+			it.Close()
+			for _, k := range keys {
+				st.Delete(k)
+			}
+			r.env.NFT.InitGenesis(c, *gs)
+			return nil
+		})
+		return ctx, class + " " + r.state(ctx)
+	}
 	a := hx.Args(f[2:])
 	id := func(k string) string { return hx.Undash(a[k]) }
 	var msg sdk.Msg
